@@ -1,6 +1,6 @@
 From Coq Require Extraction.
 From Coq Require Import ExtrOcamlBasic.
-From NV Require Import Base.Witness Io.Source Io.ReadExact Io.BufReader Io.FastaScan Io.FastaIndex Io.FastqRead Io.HeaderRead Io.BgzfRead Io.BedRead Io.TabRead Io.Run Bgzf.Inflate Io.Prog Io.IndexProg Io.ProgCram Io.ProgRun Io.SeqRead Io.SeqRun Io.TabixProg.
+From NV Require Import Base.Witness Io.Source Io.ReadExact Io.BufReader Io.FastaScan Io.FastaIndex Io.FastqRead Io.HeaderRead Io.BgzfRead Io.BedRead Io.TabRead Io.Run Bgzf.Inflate Io.Prog Io.IndexProg Io.ProgCram Io.ProgRun Io.SeqRead Io.SeqRun Io.TabixProg Io.CsiBodyProg.
 Extraction "model.ml" nv_types_witness run_rx run_rxb bam_read_records bgzf_read read_until_all
   gff_lines seq_pieces run_read_sequence fidx_first_line src_left b_left
-  run_index_file run_fastq run_fastq_index run_header run_bgzf inflate run_bed_obs run_sam_view_obs run_vcf_view_obs run_read_lines run_gzi run_bai run_fai run_bcf run_cram run_csi_header run_hdr_reads run_hdr_read_to_end run_seq_reads run_seq_read_to_end run_tabix.
+  run_index_file run_fastq run_fastq_index run_header run_bgzf inflate run_bed_obs run_sam_view_obs run_vcf_view_obs run_read_lines run_gzi run_bai run_fai run_bcf run_cram run_csi_header run_hdr_reads run_hdr_read_to_end run_seq_reads run_seq_read_to_end run_tabix run_csi.
